@@ -62,6 +62,8 @@ def plan(seed, subbatch):
             members[0]["common"]["timeframe_fill"] = True
         elif not hexcfg.get("timeframe"):
             hexcfg["timeframe_fill"] = True
+    if kind == "hexital" and sub_rng(seed, "add-later").random() < 0.15:
+        hexcfg["add_later"] = True     # the Hexital is built empty, members arrive through add_indicator
     n = planlib.pick_n(cfg, (3, 15), (10, 60), (30, 150))
     if subbatch == "calm":
         faults, burst = {}, None
